@@ -4,8 +4,8 @@ import (
 	"fmt"
 	"go/constant"
 	"go/token"
-	"os"
 	"go/types"
+	"os"
 	"sort"
 	"strings"
 
@@ -111,6 +111,8 @@ type Interp struct {
 	pureDeclared      map[string]bool
 	bufs              map[*Value]*bufState
 	pendingConc       []Value
+	strVecs           map[string][]Term
+	pools             map[*Value][]Value
 	blobStrs          map[int]Term
 	blobByID          map[int]*Blob
 	hints             []string
@@ -1151,7 +1153,34 @@ func (in *Interp) strIndex(s Term, idx Term) Value {
 		}
 		return r
 	}
-	panic(abort("index into symbolic String"))
+	// a symbolic string read byte by byte: split on its length and name its bytes (characters 0..255 on this path)
+	return in.strIndex(vecStr(in.strAsVec(s)), idx)
+}
+
+// strAsVec gives a symbolic string a concrete length (one decision per feasible length: the harness must bound it) and
+// fresh byte variables b_i with s = b_0 … b_{n-1}. Stated restriction: on such a path the string's characters are
+// code points 0..255 (one byte each), i.e. code that walks a string byte-wise is decided over Latin-1 texts.
+const byteWiseMaxLen = 4
+
+func (in *Interp) strAsVec(s Term) []Term {
+	key := s.smt()
+	if v, ok := in.strVecs[key]; ok {
+		return v
+	}
+	// byte-wise walks branch per byte: keep the strings short on such paths (stated restriction, see DESIGN §11.2)
+	in.assume(bvCmp("<=", strLen(s), mkBV(64, byteWiseMaxLen), false))
+	n := int(in.concretize(strLen(s), "length of a string that is read byte-wise"))
+	vec := make([]Term, n)
+	for i := range vec {
+		vec[i] = in.freshBV("strbyte", 8)
+	}
+	in.assume(tEq(s, vecStr(vec)))
+	if in.strVecs == nil {
+		in.strVecs = map[string][]Term{}
+	}
+	in.strVecs[key] = vec
+	in.trace = append(in.trace, fmt.Sprintf("string read byte-wise: length fixed to %d (<= %d) on this path, characters restricted to 0..255", n, byteWiseMaxLen))
+	return vec
 }
 
 func (in *Interp) indexAddr(fr *frame, x *ssa.IndexAddr) Value {
@@ -1234,6 +1263,11 @@ func (in *Interp) sliceOp(fr *frame, x *ssa.Slice) Value {
 		}
 		return Slice{A: a.A[lo:hi:mx]}
 	case Term:
+		if !a.C && !a.IsV {
+			if v, ok := in.strVecs[a.smt()]; ok {
+				a = vecStr(v)
+			}
+		}
 		if a.C || a.IsV {
 			vec := strToVec(a)
 			lo := geti(x.Low, 0)
@@ -1360,6 +1394,11 @@ func (in *Interp) builtin(fr *frame, b *ssa.Builtin, c *ssa.CallCommon, args []V
 	case "len":
 		switch a := args[0].(type) {
 		case Term:
+			if !a.C && !a.IsV {
+				if v, ok := in.strVecs[a.smt()]; ok {
+					return mkBV(64, uint64(len(v))) // fixed when the string was first read byte-wise
+				}
+			}
 			return strLen(a)
 		case Slice:
 			if a.Seq != nil {
